@@ -73,8 +73,39 @@ def _job(args):
                 if h is not None:
                     out["violations"].append((dict(case, module=h[0], detail=str(h[1])[:300]), f"sub modules of {h[0]} are not the modules whose name extends it", {"kind": "hierarchy"}))
                     continue
+                # an absolute import name that can be read both ways (fully qualified from the root AND relative to
+                # module_path's parent, both naming scanned modules) is ambiguous: outside the claim
+                ambiguous = False
+                if len(mp) > 1:
+                    allmods = set(expected_modules(dirs, files, (root,)))
+                    ap = scan.dotted(mp[:-1])
+
+                    def names_of(s0):
+                        if s0[0] == "import":
+                            return list(s0[1])
+                        if s0[0] == "from" and s0[1] == 0:
+                            return [s0[2]] + [s0[2] + "." + nmx for nmx in s0[3]]
+                        if s0[0] == "block":
+                            return [x for c0 in s0[2] for x in names_of(c0)]
+                        return []
+                    for f0, v0 in files.items():
+                        if v0["py"] and f0[:len(mp)] == mp:
+                            for s0 in v0["body"]:
+                                for nm0 in names_of(s0):
+                                    if nm0 in allmods and ap + "." + nm0 in allmods:
+                                        ambiguous = True
+                if ambiguous:
+                    out["stats"]["ambiguous_import_names"] = out["stats"].get("ambiguous_import_names", 0) + 1
+                # every import statement the documentation promises to resolve must be an edge of the sub scan
+                if not ambiguous:
+                    from harness.props.c02 import documented_edges
+                    must, may = documented_edges(root, dirs, files, mp)
+                    lost = sorted(must - set(edges))
+                    if lost:
+                        out["violations"].append((dict(case, unresolved=lost), f"scan of {scan.dotted(mp)}: import {lost[0][0]} -> {lost[0][1]} (fully qualified or relative to module_path's parent) is not resolved", {"kind": "subscan_resolution"}))
+                        continue
                 # sub-directory scan = whole-root scan restricted to the sub-tree
-                if whole[0] == "OK" and len(mp) > 1:
+                if whole[0] == "OK" and len(mp) > 1 and not ambiguous:
                     pre = scan.dotted(mp)
                     inside = lambda m: m == pre or m.startswith(pre + ".")
                     w_edges = sorted((a, b) for a, b in whole[2] if inside(a) and inside(b))
